@@ -154,6 +154,8 @@ class AbsEval:
                 nv = v + (1 if op == '++' else -1)
                 self.env[x['id']] = nv
                 return v if n.get('postfix') else nv
+            if op == '~' and isinstance(v, int):
+                return (~v) & 0xFFFFFFFFFFFFFFFF
             raise AnalysisBroken('E-CMP: unary %s' % op)
         if k in ('BinaryOperator', 'CompoundAssignOperator'):
             op = n['op']
